@@ -9,6 +9,7 @@ import (
 	"math"
 	"math/big"
 	"reflect"
+	"sort"
 	"strings"
 	"unsafe"
 
@@ -361,3 +362,124 @@ func (p *encParser) zoo(name string) reflect.Value {
 }
 
 var _ = math.Pi
+
+// deepString renders a value completely and deterministically (map entries sorted by their rendered
+// text, floats by bit pattern, pointers followed with a cycle guard): used to detect that Encode
+// modified its argument.  fmt's %#v is not usable for that: it orders several NaN map keys
+// arbitrarily.
+func deepString(v any) string {
+	var sb strings.Builder
+	deepWrite(&sb, reflect.ValueOf(v), map[uintptr]bool{}, 0)
+	return sb.String()
+}
+
+func deepWrite(sb *strings.Builder, v reflect.Value, seen map[uintptr]bool, depth int) {
+	if !v.IsValid() {
+		sb.WriteString("<invalid>")
+		return
+	}
+	if depth > 200 {
+		sb.WriteString("<deep>")
+		return
+	}
+	sb.WriteString(v.Type().String())
+	sb.WriteByte(':')
+	// a Dict is rendered through its API: iterating it sets bookkeeping flags inside gomap
+	if v.Type() == reflect.TypeOf(ogorek.Dict{}) && v.CanInterface() {
+		d := v.Interface().(ogorek.Dict)
+		items := []string{}
+		d.Iter()(func(k, val any) bool {
+			var b strings.Builder
+			deepWrite(&b, reflect.ValueOf(k), seen, depth+1)
+			b.WriteString("=>")
+			deepWrite(&b, reflect.ValueOf(val), seen, depth+1)
+			items = append(items, b.String())
+			return true
+		})
+		sort.Strings(items)
+		sb.WriteString("dict{" + strings.Join(items, "; ") + "}")
+		return
+	}
+	if v.Type() == reflect.TypeOf(big.Int{}) && v.CanAddr() && v.Addr().CanInterface() {
+		sb.WriteString(v.Addr().Interface().(*big.Int).String())
+		return
+	}
+	switch v.Kind() {
+	case reflect.Float32, reflect.Float64:
+		fmt.Fprintf(sb, "%016x", math.Float64bits(v.Float()))
+	case reflect.Complex64, reflect.Complex128:
+		c := v.Complex()
+		fmt.Fprintf(sb, "%016x,%016x", math.Float64bits(real(c)), math.Float64bits(imag(c)))
+	case reflect.Bool, reflect.Int, reflect.Int8, reflect.Int16, reflect.Int32, reflect.Int64,
+		reflect.Uint, reflect.Uint8, reflect.Uint16, reflect.Uint32, reflect.Uint64, reflect.Uintptr, reflect.String:
+		fmt.Fprintf(sb, "%#v", v)
+	case reflect.Slice, reflect.Array:
+		if v.Kind() == reflect.Slice && v.IsNil() {
+			sb.WriteString("nil")
+			return
+		}
+		sb.WriteByte('[')
+		for i := 0; i < v.Len(); i++ {
+			deepWrite(sb, v.Index(i), seen, depth+1)
+			sb.WriteByte(' ')
+		}
+		sb.WriteByte(']')
+	case reflect.Map:
+		if v.IsNil() {
+			sb.WriteString("nil")
+			return
+		}
+		p := v.Pointer()
+		if seen[p] {
+			sb.WriteString("<cycle>")
+			return
+		}
+		seen[p] = true
+		items := make([]string, 0, v.Len())
+		it := v.MapRange()
+		for it.Next() {
+			var b strings.Builder
+			deepWrite(&b, it.Key(), seen, depth+1)
+			b.WriteString("=>")
+			deepWrite(&b, it.Value(), seen, depth+1)
+			items = append(items, b.String())
+		}
+		delete(seen, p)
+		sort.Strings(items)
+		sb.WriteByte('{')
+		sb.WriteString(strings.Join(items, "; "))
+		sb.WriteByte('}')
+	case reflect.Ptr:
+		if v.IsNil() {
+			sb.WriteString("nil")
+			return
+		}
+		p := v.Pointer()
+		if seen[p] {
+			sb.WriteString("<cycle>")
+			return
+		}
+		seen[p] = true
+		sb.WriteByte('&')
+		deepWrite(sb, v.Elem(), seen, depth+1)
+		delete(seen, p)
+	case reflect.Interface:
+		if v.IsNil() {
+			sb.WriteString("nil")
+			return
+		}
+		deepWrite(sb, v.Elem(), seen, depth+1)
+	case reflect.Struct:
+		sb.WriteByte('{')
+		for i := 0; i < v.NumField(); i++ {
+			sb.WriteString(v.Type().Field(i).Name)
+			sb.WriteByte('=')
+			deepWrite(sb, v.Field(i), seen, depth+1)
+			sb.WriteByte(' ')
+		}
+		sb.WriteByte('}')
+	default:
+		// chan, func, unsafe pointer: identity
+		fmt.Fprintf(sb, "%v", v.Kind())
+	}
+}
